@@ -8,6 +8,9 @@
 using namespace ace_time;
 using namespace verif;
 
+#ifdef VERIF_GEN_REGISTRY_H
+#include VERIF_GEN_REGISTRY_H    // tables generated afresh by the real compiler, in their own namespace
+#endif
 #ifndef VERIF_BASIC_NS
 #define VERIF_BASIC_NS zonedb
 #endif
@@ -260,9 +263,15 @@ static void c04_queries() {
   char line[256];
   int curZone = -1; TimeZone tz;
   while (fgets(line, sizeof line, stdin)) {
-    int zi; char kind; long long a, b, c, d, e, f;
-    int n = sscanf(line, "%d %c %lld %lld %lld %lld %lld %lld", &zi, &kind, &a, &b, &c, &d, &e, &f);
+    int zi; char kind; long long a, b, c, d, e, f; char ztok[80];
+    int n = sscanf(line, "%79s %c %lld %lld %lld %lld %lld %lld", ztok, &kind, &a, &b, &c, &d, &e, &f);
     if (n < 3) continue;
+    if (ztok[0] >= '0' && ztok[0] <= '9') zi = atoi(ztok);
+    else {   // zone given by name: exact match over the registry
+      zi = -1;
+      for (uint16_t k = 0; k < VERIF_EXT_NS::kZoneRegistrySize; k++) if (strcmp(VERIF_EXT_NS::kZoneRegistry[k]->name, ztok) == 0) { zi = k; break; }
+      if (zi < 0) { printf("%c NOZONE NOZONE -\n", kind); continue; }
+    }
     if (zi != curZone) { curZone = zi; tz = TimeZone::forZoneInfo(VERIF_EXT_NS::kZoneRegistry[zi], &procs[0]); }
     if (kind == 'i') {
       TimeOffset o = tz.getUtcOffset((acetime_t) a), dl = tz.getDeltaOffset((acetime_t) a);
